@@ -265,6 +265,7 @@ def _run_large_arrays(item, ctx, tier):
     shapes = [(200, 180), (3, 150, 80), (2 ** 16 + 8,), (257, 257)] + ([(1100, 1000)] if tier != "quick" else [])
     alphabet = sorted(set(pos + neg))
     alphabet = [v + d for v in alphabet for d in (0.0, 0.0625)] + [-100.0, 100.0]
+    held = []
     for si, shape in enumerate(shapes):
         for layout in ("C", "F", "T", "strided"):
             if layout in ("F", "T") and len(shape) < 2:
@@ -286,6 +287,13 @@ def _run_large_arrays(item, ctx, tier):
             ctx.nontrivial()
             ok, m = guarded(ctx, "cm", case, lambda: s.cm(arr).matrix)
             ctx.tick(size)
+            # results the caller still holds from the previous (same-shaped or not) calls must not have moved
+            for hname, harr, hsnap in held:
+                if not np.array_equal(harr, hsnap, equal_nan=True):
+                    ctx.fail("returned-result-not-overwritten-by-later-calls", dict(case, held=hname), observed="changed", expected="unchanged")
+            held = held[-3:]
+            if ok:
+                held.append((f"cm{list(shape)}/{layout}", m, np.array(m, copy=True)))
             if ok:
                 if m.shape != shape + (2, 2):
                     ctx.fail("result-shape", dict(case, query="cm"), observed=list(m.shape), expected=list(shape) + [2, 2])
@@ -303,6 +311,8 @@ def _run_large_arrays(item, ctx, tier):
             for r in ("tpr", "fpr", "tonr"):
                 ok, v = guarded(ctx, r, case, lambda: np.asarray(getattr(s, r)(arr)))
                 ctx.tick(size)
+                if ok:
+                    held.append((f"{r}{list(shape)}/{layout}", v, np.array(v, copy=True)))
                 if ok:
                     if v.shape != shape:
                         ctx.fail("result-shape", dict(case, query=r), observed=list(v.shape), expected=list(shape))
